@@ -27,6 +27,7 @@ type LiveOpts struct {
 	Heights uint64
 	MaxWall time.Duration
 	Fuzz    bool // FuzzedConnection delays on the peer connections
+	Down    int  // >= 0: that validator is never started (participation N-1 of N); -1: everybody runs
 }
 
 type LiveResult struct {
@@ -35,6 +36,7 @@ type LiveResult struct {
 	Wall      time.Duration
 	Dead      []string
 	Rounds    map[uint32]int // commit rounds seen
+	Deadlock  string         // non-empty: no node changed its height/round/step during 4000 consecutive polls although the poller itself kept being scheduled
 }
 
 // BuildLiveNode builds a node that keeps the real ticker and is driven by its reactor.
@@ -87,7 +89,17 @@ func RunLive(o LiveOpts, al *Alarms) (*Net, LiveResult, error) {
 	}
 	hist := NewSetHistory(RefSetFrom(net.Nodes[0].CS.VerifState().Validators))
 	net.Mons = []Monitor{NewAgreementMonitor(al, hist), NewRulesMonitor(al, hist)}
-	for _, n := range net.Nodes {
+	// the validators that run (o.Down, if any, is in the genesis set but never starts: participation N-1 of N)
+	var up []*Node
+	var upMgrs []*consensus.ConsensusManager
+	for i, n := range net.Nodes {
+		if o.Down >= 0 && i == o.Down {
+			continue
+		}
+		up = append(up, n)
+		upMgrs = append(upMgrs, mgrs[i])
+	}
+	for _, n := range up {
 		net.observe(n) // state snapshot before anything happens
 	}
 	p2pcfg := configs.DefaultP2PConfig()
@@ -103,31 +115,44 @@ func RunLive(o LiveOpts, al *Alarms) (*Net, LiveResult, error) {
 		fc.ProbSleep = 0.2
 		p2pcfg.TestFuzzConfig = fc
 	}
-	sws := p2p.MakeConnectedSwitches(p2pcfg, o.N, func(i int, sw *p2p.Switch) *p2p.Switch {
-		sw.AddReactor("CONSENSUS", mgrs[i])
+	sws := p2p.MakeConnectedSwitches(p2pcfg, len(up), func(i int, sw *p2p.Switch) *p2p.Switch {
+		sw.AddReactor("CONSENSUS", upMgrs[i])
 		return sw
 	}, p2p.Connect2Switches)
 	t0 := time.Now()
 	// The target test is cheap and comes first; the monitors (slow under the race detector) look at one node per
 	// iteration, so that observing cannot fall behind a cluster that keeps committing: what they have not seen
 	// when the target is reached they see from the recorded traces after the switches are stopped.
+	// Deadlock detection counts polls, not seconds: the poller sleeps 10 ms per iteration, so 4000 iterations in which
+	// no node changed its height/round/step mean that the scheduler kept running this goroutine for at least 40 s while
+	// every consensus routine sat still (the longest timeout of this configuration is well under a second).
+	lastState, sinceChange := "", 0
 	for it := 0; time.Since(t0) < o.MaxWall; it++ {
 		min := uint64(1 << 62)
-		for _, n := range net.Nodes {
+		state := ""
+		for _, n := range up {
 			if h := n.BO.Height(); h < min {
 				min = h
 			}
+			rs := n.CS.GetRoundState()
+			state += fmt.Sprintf("%d/%d/%d ", rs.Height, rs.Round, rs.Step)
 		}
 		res.MinHeight = min
 		if min >= o.Heights {
 			res.Reached = true
 			break
 		}
-		net.observe(net.Nodes[it%len(net.Nodes)])
+		if state != lastState {
+			lastState, sinceChange = state, 0
+		} else if sinceChange++; sinceChange >= 4000 {
+			res.Deadlock = "no node changed its height/round/step during 4000 consecutive polls: " + strings.Join(net.Dump(), "; ")
+			break
+		}
+		net.observe(up[it%len(up)])
 		time.Sleep(10 * time.Millisecond)
 	}
 	// a consensus routine that ended while the cluster was still running
-	for _, n := range net.Nodes {
+	for _, n := range up {
 		select {
 		case <-n.CS.VerifDone():
 			res.Dead = append(res.Dead, fmt.Sprintf("node %d", n.Idx))
@@ -137,7 +162,7 @@ func RunLive(o LiveOpts, al *Alarms) (*Net, LiveResult, error) {
 	for _, sw := range sws {
 		sw.Stop()
 	}
-	for _, n := range net.Nodes {
+	for _, n := range up {
 		net.observe(n)
 		for h := uint64(1); h <= n.BO.Height(); h++ {
 			if c := n.BO.LoadBlockCommit(h); c != nil {
